@@ -218,7 +218,10 @@ pub fn run(ctx: &Ctx, out: &mut CaseOut) {
                             }
                         }
                         Err(e) => {
-                            out.violation(None, format!("{} interrupted ({}): {}: limited `{}` vs full `{}`", solver_name(&choice), sched_name, e, disp(&lim), disp(full)), d());
+                            // F10: on coinductive goals with unknowns the recursive solver's answers grow with every iteration,
+                            // so an interrupted and an uninterrupted search stop at different towers
+                            let sig = if !is_slg && db.nonground_coinductive.get() { Some("recursive:coinductive-nonground:divergence") } else { None };
+                            out.violation(sig, format!("{} interrupted ({}): {}: limited `{}` vs full `{}`", solver_name(&choice), sched_name, e, disp(&lim), disp(full)), d());
                             continue;
                         }
                     }
